@@ -341,6 +341,11 @@ class Emitter:
             return self.gep_expr(sty, pty, base, idx)[0]
         if op == 'cast':
             _, _, cop, fty, x, tty = v
+            if cop == 'ptrtoint' and x[0] == 'global' and x[1] in self.m.funcs and self.resolve(tty)[0] == 'int':
+                # C++ pointer-to-member-function constants ({ptr, adj} with ptr = ptrtoint @f): give every such
+                # function a small even integer id; the matching inttoptr + indirect call becomes a switch over
+                # the ids (vp_dispatch_*), so CBMC sees direct calls and constant-propagates the selector
+                return self.int_lit(self.resolve(tty)[1], self.fn_id(x[1]))
             return self.cast_expr(cop, fty, self.val(fty, x), tty)
         if op == 'bin':
             _, _, bop, ty, a, b = v
@@ -352,6 +357,13 @@ class Emitter:
             ops = v[2]
             return '(%s ? %s : %s)' % (self.val(*ops[0]), self.val(*ops[1]), self.val(*ops[2]))
         raise IRError('cexpr: ' + repr(v))
+
+    def fn_id(self, name):
+        ids = self.__dict__.setdefault('fn_ids', {})
+        if name not in ids:
+            ids[name] = 0x10000 + 16 * len(ids)
+            self.func_cname(name)     # make sure it is translated
+        return ids[name]
 
     def global_ref(self, name):
         if name in self.m.aliases:
@@ -633,6 +645,15 @@ class Emitter:
         fty = a['fty'] or ('func', rty, tuple(x[0] for x in args), False)
         fpt = self.ct(('ptr', fty))
         argv = [self.val(aty, av) for (aty, av, info) in args]
+        if cal[0] == 'local' and not fty[3]:
+            # the pointer may be an integer-encoded function id (see fn_id): ids live in [0x10000, 0x10000000),
+            # real code addresses (CBMC object numbers in the top bits / native text addresses) do not
+            key = self.tkey(fty)
+            dname = self.short(key, 'vp_dispatch_')
+            self.__dict__.setdefault('dispatchers', {})[dname] = fty
+            out.append('if ((uintptr_t)%s >= 0x10000ULL && (uintptr_t)%s < 0x10000000ULL) { %s%s(%s); } else { %s((%s)%s)(%s); }'
+                       % (fp, fp, res, dname, ', '.join(['(uint64_t)(uintptr_t)' + fp] + argv), res, fpt, fp, ', '.join(argv)))
+            return
         out.append('%s((%s)%s)(%s);' % (res, fpt, fp, ', '.join(argv)))
 
     def cast_src(self, v):
@@ -882,6 +903,7 @@ class Emitter:
             ltypes[pn] = pty
         decls = []
         self.cur_bitcasts = {}
+        self.cur_inttoptr = {}
         phis = {}   # block label -> [(res, ty, inc)]
         for (label, insts) in blocks:
             for ins in insts:
@@ -941,6 +963,8 @@ class Emitter:
                         raise IRError('fcmp ' + a['pred'])
                     body.append('%s = (uint8_t)(%s %s %s);' % (r, self.val(a['ty'], a['x']), cop, self.val(a['ty'], a['y'])))
                 elif op == 'cast':
+                    if a['cast'] == 'inttoptr' and self.resolve(a['tty'])[0] == 'ptr' and self.resolve(a['tty'])[1][0] == 'func':
+                        self.cur_inttoptr[ins.res] = '(uint64_t)' + self.val(a['fty'], a['x'])
                     if a['cast'] == 'bitcast' and a['fty'][0] == 'ptr' and a['x'][0] in ('local', 'global'):
                         self.cur_bitcasts[ins.res] = (a['fty'][1], self.val(a['fty'], a['x']))
                     body.append('%s = %s;' % (r, self.cast_expr(a['cast'], a['fty'], self.val(a['fty'], a['x']), a['tty'])))
@@ -1046,6 +1070,30 @@ class Emitter:
                     gdefs.append((cn, self.ct(g.ty), None))
                 else:
                     gdefs.append((cn, self.ct(g.ty), self.val(g.ty, g.init, True)))
+        # dispatchers for calls through integer-encoded function pointers (after all ids are known)
+        disp_protos = []
+        disp_bodies = []
+        for dname, fty in sorted(getattr(self, 'dispatchers', {}).items()):
+            ret = self.ct(fty[1])
+            ps = ['uint64_t id'] + ['%s a%d' % (self.ct(p), i) for i, p in enumerate(fty[2])]
+            hdr = 'static %s %s(%s)' % (ret, dname, ', '.join(ps))
+            disp_protos.append(hdr + ';')
+            b = [hdr, '{', '  switch (id) {']
+            for fname, fid in sorted(getattr(self, 'fn_ids', {}).items(), key=lambda kv: kv[1]):
+                f = m.funcs[fname]
+                if not f.defined or len(f.params) != len(fty[2]) or self.tkey(f.ret) != self.tkey(fty[1]):
+                    continue
+                if any(self.tkey(pp[0]) != self.tkey(q) for pp, q in zip(f.params, fty[2])):
+                    continue
+                call = 'f_%s(%s)' % (san(fname), ', '.join('a%d' % i for i in range(len(fty[2]))))
+                b.append('    case %dULL: %s' % (fid, ('return %s;' % call) if fty[1][0] != 'void' else (call + '; return;')))
+            b.append('    default: break;')
+            b.append('  }')
+            b.append('  VP_UNMODELLED("indirect call through an unknown function id");')
+            if fty[1][0] != 'void':
+                b.append('  { %s r = %s; return r; }' % (ret, self.zero_of(fty[1], True) if self.is_agg(fty[1]) else '0'))
+            b.append('}')
+            disp_bodies.append('\n'.join(b))
         # extern stubs
         stubs = []
         for name, f in self.extern_stubs.items():
@@ -1117,6 +1165,7 @@ class Emitter:
         out += getattr(self, 'fn_typedef_defs', [])
         out += tdefs
         out += protos
+        out += disp_protos
         out += stubs
         for gname, fields in sorted(self.split_fields.items()):
             g = m.globals[gname]
@@ -1136,6 +1185,7 @@ class Emitter:
             if init is not None:
                 out.append('static %s %s = %s;' % (ct, cn, init))
         out += bodies
+        out += disp_bodies
         out.append('int main(void)\n{')
         out.append('  vp_rt_init();')
         for c in m.ctors:
